@@ -1,6 +1,6 @@
 #!/bin/sh
 # usage: seed_run.sh <seeded-dir-name> [tier] [PROP...]  - applies a stored seeded defect to /repo, runs the check(s), reverts.
-S=$1; TIER=${2:-quick}; shift; shift
+S=$1; TIER=${2:-quick}; shift; [ $# -gt 0 ] && shift
 D=/verif/seeded/$S
 P=$(echo $S | cut -d- -f1)
 PROPS="${*:-$P}"
@@ -8,7 +8,7 @@ cd /repo && git diff --quiet || { echo "/repo dirty"; exit 2; }
 git apply $D/patch.diff || { echo "patch does not apply"; exit 2; }
 cd /verif
 for Q in $PROPS; do
-  ./check $Q $TIER > /tmp/wt/seedrun-$S-$Q.log 2>&1; RC=$?
+  VERIF_NO_EVIDENCE=1 ./check $Q $TIER > /tmp/wt/seedrun-$S-$Q.log 2>&1; RC=$?
   echo "SEED $S check $Q $TIER -> exit $RC: $(grep -c '^VIOLATION' /tmp/wt/seedrun-$S-$Q.log) violation line(s); $(grep '^violation in' /tmp/wt/seedrun-$S-$Q.log | head -2 | cut -c1-220)"
 done
 git -C /repo checkout -q -- . 
